@@ -1,5 +1,16 @@
-//! Replay for non-E1 engines (filled in as engines are added).
-pub fn replay(_doc: &serde_json::Value) -> i32 {
-    eprintln!("no replay handler for this engine yet");
+//! Checks and replay handlers of the non-E1 engines.
+use crate::checks_e1::Variant;
+use crate::report::Report;
+
+pub fn run(_prop: &str, _tier: &str) -> Option<Report> {
+    None
+}
+
+pub fn e1_variants(_prop: &str, _tier: &str) -> Option<Vec<Variant>> {
+    None
+}
+
+pub fn replay(doc: &serde_json::Value) -> i32 {
+    eprintln!("no replay handler for engine {:?}", doc["replay"]["engine"]);
     2
 }
